@@ -18,12 +18,14 @@ import (
 // ---------------------------------------------------------------------------------------------------
 
 type mergeCtx struct {
-	p        *core.Prog
-	rep      *core.Report
-	merge    *ssa.Function
-	adopt    *ssa.Function
-	getName  *ssa.Function
-	openFile *ssa.Function
+	p     *core.Prog
+	rep   *core.Report
+	merge *ssa.Function
+	adopt *ssa.Function
+	// adoptRegion: the adoption function first, then the unexported helpers it was split into (called from nowhere else)
+	adoptRegion []*ssa.Function
+	getName     *ssa.Function
+	openFile    *ssa.Function
 }
 
 func newMergeCtx(p *core.Prog, rep *core.Report) *mergeCtx {
@@ -33,26 +35,148 @@ func newMergeCtx(p *core.Prog, rep *core.Report) *mergeCtx {
 	if m.getName == nil || m.openFile == nil {
 		core.Failf("role unresolved: datafile.GetFileName / OpenFile")
 	}
-	// adoption function: the root-package function that renames files
+	// adoption function: the root-package function that renames files. When the adoption was split into helpers
+	// (several functions rename), the role is the function whose region - itself plus the unexported functions of the
+	// package that are called from nowhere else - holds every renaming function, smallest region first.
+	var renamers []*ssa.Function
 	for _, fn := range p.LibFuncs() {
 		if !inRootPkg(fn) {
 			continue
 		}
+		has := false
 		for _, b := range fn.Blocks {
 			for _, in := range b.Instrs {
 				if calleeIs(in, "os.Rename") {
-					if m.adopt != nil && m.adopt != fn {
-						core.Failf("role ambiguous: adoption function (%s, %s)", m.adopt.Name(), fn.Name())
-					}
-					m.adopt = fn
+					has = true
+				}
+			}
+		}
+		if has {
+			renamers = append(renamers, fn)
+		}
+	}
+	switch len(renamers) {
+	case 0:
+		core.Failf("role unresolved: merge adoption function (os.Rename caller in the root package)")
+	case 1:
+		m.adopt = renamers[0]
+		m.adoptRegion = m.regionOf(m.adopt)
+	default:
+		for _, fn := range p.LibFuncs() {
+			if !inRootPkg(fn) || fn.Parent() != nil {
+				continue
+			}
+			reg := m.regionOf(fn)
+			in := map[*ssa.Function]bool{}
+			for _, f := range reg {
+				in[f] = true
+			}
+			all := true
+			for _, r := range renamers {
+				if !in[r] {
+					all = false
+				}
+			}
+			if all && (m.adopt == nil || len(reg) < len(m.adoptRegion)) {
+				m.adopt, m.adoptRegion = fn, reg
+			}
+		}
+		if m.adopt == nil {
+			core.Failf("role ambiguous: adoption function (%s, %s)", renamers[0].Name(), renamers[1].Name())
+		}
+	}
+	return m
+}
+
+// staticCallers: every call / defer / go instruction of the library whose static callee is fn.
+func (m *mergeCtx) staticCallers(fn *ssa.Function) []ssa.CallInstruction {
+	var out []ssa.CallInstruction
+	for _, caller := range m.p.LibFuncs() {
+		for _, b := range caller.Blocks {
+			for _, in := range b.Instrs {
+				if ci, ok := in.(ssa.CallInstruction); ok && ci.Common().StaticCallee() == fn {
+					out = append(out, ci)
 				}
 			}
 		}
 	}
-	if m.adopt == nil {
-		core.Failf("role unresolved: merge adoption function (os.Rename caller in the root package)")
+	return out
+}
+
+// regionOf: root plus the unexported named functions of the root package that are (transitively) called from the
+// region and from nowhere else - the pieces a function was split into. Deterministic order: root, then by name.
+func (m *mergeCtx) regionOf(root *ssa.Function) []*ssa.Function {
+	in := map[*ssa.Function]bool{root: true}
+	for changed := true; changed; {
+		changed = false
+		for f := range in {
+			for _, b := range f.Blocks {
+				for _, instr := range b.Instrs {
+					ci, ok := instr.(ssa.CallInstruction)
+					if !ok {
+						continue
+					}
+					g := ci.Common().StaticCallee()
+					if g == nil || in[g] || !inRootPkg(g) || g.Parent() != nil || g.Blocks == nil || token.IsExported(g.Name()) {
+						continue
+					}
+					only := true
+					for _, site := range m.staticCallers(g) {
+						if !in[site.Parent()] {
+							only = false
+						}
+					}
+					if only {
+						in[g] = true
+						changed = true
+					}
+				}
+			}
+		}
 	}
-	return m
+	var rest []*ssa.Function
+	for f := range in {
+		if f != root {
+			rest = append(rest, f)
+		}
+	}
+	sort.Slice(rest, func(i, j int) bool { return rest[i].Name() < rest[j].Name() })
+	return append([]*ssa.Function{root}, rest...)
+}
+
+// adoptBlocks: the blocks of the adoption function and of the helpers it was split into.
+func (m *mergeCtx) adoptBlocks() []*ssa.BasicBlock {
+	var out []*ssa.BasicBlock
+	for _, f := range m.adoptRegion {
+		out = append(out, f.Blocks...)
+	}
+	return out
+}
+
+// liftInstr: the instruction of the adoption function itself through which `in` is reached: `in` if it lies there,
+// otherwise the (unique) call site of its helper, lifted in turn; nil if a helper has several call sites.
+func (m *mergeCtx) liftInstr(in ssa.Instruction) ssa.Instruction {
+	for d := 0; d < 4; d++ {
+		if in == nil || in.Parent() == m.adopt {
+			return in
+		}
+		sites := m.staticCallers(in.Parent())
+		if len(sites) != 1 {
+			return nil
+		}
+		in = sites[0]
+	}
+	return nil
+}
+
+func (m *mergeCtx) liftBlock(b *ssa.BasicBlock) *ssa.BasicBlock {
+	if b.Parent() == m.adopt {
+		return b
+	}
+	if in := m.liftInstr(b.Instrs[0]); in != nil {
+		return in.Block()
+	}
+	return nil
 }
 
 func strConst(v ssa.Value) (string, bool) {
@@ -313,14 +437,16 @@ func (m *mergeCtx) mg3Liveness() {
 		if !ok {
 			continue
 		}
-		if bo.Op == token.NEQ && core.IsNilConst(bo.Y) && edgeDominates(iff, true, blk) {
+		// either polarity: `pos != nil && ...` on the true edge, or the De Morgan form `pos == nil || ... { continue }` on
+		// the false edge
+		if (bo.Op == token.NEQ || bo.Op == token.EQL) && core.IsNilConst(bo.Y) && edgeDominates(iff, bo.Op == token.NEQ, blk) {
 			if c, ok := bo.X.(*ssa.Call); ok {
 				if cal := c.Common().StaticCallee(); cal != nil && core.RecvNamed(cal) == R.ShardedIndex && cal.Name() == "Get" {
 					got["non-nil"] = true
 				}
 			}
 		}
-		if bo.Op != token.EQL || !edgeDominates(iff, true, blk) {
+		if (bo.Op != token.EQL && bo.Op != token.NEQ) || !edgeDominates(iff, bo.Op == token.EQL, blk) {
 			continue
 		}
 		for _, pr := range [][2]ssa.Value{{bo.X, bo.Y}, {bo.Y, bo.X}} {
@@ -635,7 +761,7 @@ func (m *mergeCtx) ps5Adoption() {
 	}
 	var ungated, removesBad []string
 	nMut, nRemove := 0, 0
-	for _, b := range a.Blocks {
+	for _, b := range m.adoptBlocks() {
 		for _, in := range b.Instrs {
 			ci, ok := in.(ssa.CallInstruction)
 			if !ok {
@@ -649,7 +775,7 @@ func (m *mergeCtx) ps5Adoption() {
 				continue
 			}
 			nMut++
-			if !edgeDominates(gate, gateNZ, b) {
+			if lb := m.liftBlock(b); lb == nil || !edgeDominates(gate, gateNZ, lb) {
 				ungated = append(ungated, name+" at "+m.p.InstrPos(in))
 			}
 			if name == "os.Remove" {
@@ -668,7 +794,7 @@ func (m *mergeCtx) ps5Adoption() {
 
 	// (e) merge directory removal: not deferred, after loops completed; loops exhaustive
 	var bad []string
-	for _, b := range a.Blocks {
+	for _, b := range m.adoptBlocks() {
 		for _, in := range b.Instrs {
 			if d, ok := in.(*ssa.Defer); ok {
 				if callsRemoveAll(d.Call.StaticCallee()) || calleeIs(in, "os.RemoveAll") {
@@ -677,7 +803,10 @@ func (m *mergeCtx) ps5Adoption() {
 			}
 		}
 	}
-	loops := naturalLoops(a)
+	var loops []loopInfo
+	for _, f := range m.adoptRegion {
+		loops = append(loops, naturalLoops(f)...)
+	}
 	nLoops := 0
 	for _, lp := range loops {
 		hasMut := false
@@ -708,7 +837,7 @@ func (m *mergeCtx) ps5Adoption() {
 		}
 	}
 	var rmAll ssa.Instruction
-	for _, b := range a.Blocks {
+	for _, b := range m.adoptBlocks() {
 		for _, in := range b.Instrs {
 			if _, isDefer := in.(*ssa.Defer); !isDefer && calleeIs(in, "os.RemoveAll") {
 				rmAll = in
@@ -716,18 +845,38 @@ func (m *mergeCtx) ps5Adoption() {
 		}
 	}
 	if rmAll != nil {
+		// order across the helpers the adoption was split into is decided at their call sites in the adoption function
+		lrm := m.liftInstr(rmAll)
 		for _, lp := range loops {
 			for blk := range lp.body {
 				for _, in := range blk.Instrs {
-					if calleeIs(in, "os.Rename") && !reachBlock(lp.header, rmAll.Block()) {
+					if !calleeIs(in, "os.Rename") {
+						continue
+					}
+					okOrder := false
+					if lp.header.Parent() == rmAll.Parent() {
+						okOrder = reachBlock(lp.header, rmAll.Block())
+					} else if lh := m.liftBlock(lp.header); lh != nil && lrm != nil {
+						okOrder = reachBlock(lh, lrm.Block())
+					}
+					if !okOrder {
 						bad = append(bad, "merge directory removal is not after the rename loop")
 					}
 				}
 			}
 		}
-		for _, b := range a.Blocks {
+		for _, b := range m.adoptBlocks() {
 			for _, in := range b.Instrs {
-				if calleeIs(in, "os.Rename") && reachesAvoiding(rmAll, in, nil) {
+				if !calleeIs(in, "os.Rename") {
+					continue
+				}
+				after := false
+				if in.Parent() == rmAll.Parent() {
+					after = reachesAvoiding(rmAll, in, nil)
+				} else if lin := m.liftInstr(in); lin == nil || lrm == nil || lin == lrm || reachesAvoiding(lrm, lin, nil) {
+					after = true
+				}
+				if after {
 					bad = append(bad, "a rename at "+m.p.InstrPos(in)+" can still run after the merge directory was removed")
 				}
 			}
@@ -740,7 +889,7 @@ func (m *mergeCtx) ps5Adoption() {
 
 	// (g) rename keeps id and suffix
 	nR := 0
-	for _, b := range a.Blocks {
+	for _, b := range m.adoptBlocks() {
 		for _, in := range b.Instrs {
 			if !calleeIs(in, "os.Rename") {
 				continue
@@ -775,7 +924,7 @@ func (m *mergeCtx) ps5Adoption() {
 			m.rep.Check(why == "", "PS5", fmt.Sprintf("rename-same-name#%d:%s", nR, core.FuncKey(a)), "a rewritten file is adopted under the id and suffix it was written with", m.p.InstrPos(in), why, true)
 			// (h) the move is decided by the existence of its SOURCE (restartability), never by the destination
 			gated := false
-			for _, gb := range a.Blocks {
+			for _, gb := range b.Parent().Blocks {
 				iff, ok := gb.Instrs[len(gb.Instrs)-1].(*ssa.If)
 				if !ok {
 					continue
@@ -830,7 +979,7 @@ func (m *mergeCtx) reachesMarkerRead(c *ssa.Call) bool {
 
 // underStatOfMerged: block b is dominated by the success edge of os.Stat(<file in the merge directory>).
 func (m *mergeCtx) underStatOfMerged(b *ssa.BasicBlock) bool {
-	for _, gb := range m.adopt.Blocks {
+	for _, gb := range b.Parent().Blocks {
 		iff, ok := gb.Instrs[len(gb.Instrs)-1].(*ssa.If)
 		if !ok {
 			continue
@@ -939,6 +1088,9 @@ func onlyFailureReturns(b *ssa.BasicBlock) bool {
 // ps8Merge: C06.S2 - errors of every call made by the merge / adoption / hint-load functions.
 func (m *mergeCtx) ps8Merge() {
 	scope := map[*ssa.Function]bool{m.merge: true, m.adopt: true}
+	for _, f := range m.adoptRegion {
+		scope[f] = true
+	}
 	for _, fn := range m.p.LibFuncs() {
 		if !inRootPkg(fn) {
 			continue
